@@ -364,6 +364,31 @@ func main() {
 					}
 				}
 			}
+			// the interrupted seal must be repeatable: seal whatever is active now (leftover temp files of the
+			// crashed seal are in the way) and look again
+			{
+				evals++
+				e.Seal()
+				served, bad := observe(e)
+				total := 0
+				if c.HasData {
+					total = len(targetDocs())
+				}
+				switch {
+				case bad != "":
+					fail("after sealing again: " + bad)
+					return
+				case served != 0 && served != total:
+					fail(fmt.Sprintf("after sealing again: fraction partially served: %d of %d documents", served, total))
+					return
+				case c.MustServe && served != total:
+					fail(fmt.Sprintf("after sealing again: acknowledged documents lost: %d of %d served", served, total))
+					return
+				case c.DelBegun && served != 0:
+					fail(fmt.Sprintf("after sealing again: fraction whose deletion had begun on disk is served again (%d documents)", served))
+					return
+				}
+			}
 			if c.HasData {
 				nontriv++
 			}
